@@ -206,6 +206,9 @@ def run_C16(w):
     # doubled backslash): only -c may turn that pair into a newline (seeded change C16-r5)
     progs += ['greeting = "hello\\nworld"\n', "pat = r'a\\nb'\nq = 'tab\\there'\n", 'def f():\n    """line one\\nline two"""\n    return "x\\\\ny"\n',
               "s = b'\\n' + b'\\\\n'\n"]
+    # programs whose first character means something to an argument parser ('@' = "read arguments from this file" once
+    # fromfile_prefix_chars is set): a decorated definition as the first statement (seeded change C16-r7)
+    progs += ["@staticmethod\ndef f(x):\n    return x\n", "@d\nclass C:\n    pass\n", "@a.b(1)\n@c\nasync def g():\n    pass\n"]
     for _, s in corpus.generated_sources(w.seed, 6 if w.tier != 'thorough' else 60):
         if len(s) < 3000 and '\\' not in s:
             progs.append(s)
